@@ -118,11 +118,13 @@ class Module:
             raise KeyError(clsname)
         out: dict[str, Any] = {}
         for st in cls.body:
-            if isinstance(st, ast.Assign) and len(st.targets) == 1 and isinstance(st.targets[0], ast.Name):
+            if isinstance(st, ast.Assign) and all(isinstance(t, ast.Name) for t in st.targets):
                 try:
-                    out[st.targets[0].id] = self.const_eval(st.value, dict(out))
+                    val = self.const_eval(st.value, dict(out))
                 except ConstEvalError:
-                    pass
+                    continue
+                for t in st.targets:        # `A = ALIAS = value` defines the member and its aliases
+                    out[t.id] = val
         return out
 
 
